@@ -114,8 +114,9 @@ func eventFam(typ string, c *famCtr, fOn, fOnce func(string, any), fOff func(str
 
 // occSpec: what the trigger knows about the occurrences it caused for (family, event).
 type occSpec struct {
-	exact int // >= 0: exactly this many occurrences are known to have happened; -1: unknown, counted by the witness
-	min   int // for unknown: at least this many are expected (fewer within occurrenceWait => inconclusive)
+	exact int  // >= 0: exactly this many occurrences are known to have happened; -1: not known exactly, resolved from the observation
+	min   int  // for exact == -1: at least this many are expected
+	known bool // the lower bound min was established independently of the handlers under test (fewer => violation, otherwise => inconclusive)
 }
 
 type instance struct {
@@ -362,6 +363,9 @@ func runProgram(b *bctx, in *instance, p *bprog) {
 	}
 	for _, f := range in.fams {
 		run.Count("B_family_programs_"+f.name, 1)
+		if !f.dead {
+			run.Count("B_family_programs_in_agreement_"+f.name, 1)
+		}
 	}
 }
 
@@ -466,7 +470,7 @@ func judge(b *bctx, in *instance, p *bprog, step int, spec map[string][NE]occSpe
 				case kind == "excess" && ((certain && stable >= 500*time.Millisecond) || stable >= 2*time.Second || expired):
 					report(f, e, n, got, kind, solid)
 				case kind == "missing" && expired:
-					if ok && !solid && n < sp.min {
+					if ok && !solid && n < sp.min && !sp.known {
 						run.Inconclusive(fmt.Sprintf("B %s/%s step %d: %d occurrence(s) of %s observed within %v, expected at least %d", in.typ, p.name, step, n, f.name, absenceWait, sp.min))
 						f.dead = true
 					} else {
@@ -654,6 +658,9 @@ func exact0(n int) [NE]occSpec   { return [NE]occSpec{{exact: n}} }
 func unknown0(min int) [NE]occSpec {
 	return [NE]occSpec{{exact: -1, min: min}}
 }
+func atLeast0(min int) [NE]occSpec {
+	return [NE]occSpec{{exact: -1, min: min, known: true}}
+}
 
 func onePhase(bool) int { return 1 }
 
@@ -767,8 +774,11 @@ func newServerSocketInstance(shared *rig.Server) (*instance, error) {
 	in.trigger = func(round, phase int, last bool) (map[string][NE]occSpec, error) {
 		if phase == 1 { // the socket's single disconnect, after everything else was judged
 			c.s.Disconnect()
+			if !vk.WaitUntil(occurrenceWait, func() bool { return !s.Connected() }) {
+				return nil, fmt.Errorf("the server-side socket did not become disconnected")
+			}
 			return map[string][NE]occSpec{"ServerSocket.Event": exactAll(0), "ServerSocket.Error": exact0(0),
-				"ServerSocket.Disconnecting": unknown0(1), "ServerSocket.Disconnect": unknown0(1)}, nil
+				"ServerSocket.Disconnecting": atLeast0(1), "ServerSocket.Disconnect": atLeast0(1)}, nil
 		}
 		k := 1 + round%2
 		for i := 0; i < k; i++ {
@@ -783,7 +793,7 @@ func newServerSocketInstance(shared *rig.Server) (*instance, error) {
 		case <-time.After(occurrenceWait):
 			return nil, fmt.Errorf("fence event not received by the server socket")
 		}
-		return map[string][NE]occSpec{"ServerSocket.Event": exactAll(k), "ServerSocket.Error": unknown0(1),
+		return map[string][NE]occSpec{"ServerSocket.Event": exactAll(k), "ServerSocket.Error": atLeast0(k),
 			"ServerSocket.Disconnecting": exact0(0), "ServerSocket.Disconnect": exact0(0)}, nil
 	}
 	in.close = func() { c.m.Close() }
@@ -853,8 +863,11 @@ func newConnectErrorInstance(shared *rig.Server) (*instance, error) {
 			c.s.OnConnectError, c.s.OnceConnectError, c.s.OffConnectError),
 	}
 	in.trigger = func(round, phase int, last bool) (map[string][NE]occSpec, error) {
-		c.s.Connect()
-		return map[string][NE]occSpec{"ClientSocket.ConnectError": unknown0(1)}, nil
+		c.s.Connect() // marks the socket active; the CONNECT_ERROR packet makes it inactive again
+		if !vk.WaitUntil(occurrenceWait, func() bool { return !c.s.Active() }) {
+			return nil, fmt.Errorf("the socket was not refused by the server")
+		}
+		return map[string][NE]occSpec{"ClientSocket.ConnectError": atLeast0(1)}, nil
 	}
 	in.close = func() { c.m.Close() }
 	return in, nil
@@ -888,7 +901,7 @@ func newConnectErrorDialInstance() (*instance, error) {
 		if !vk.WaitUntil(occurrenceWait, func() bool { return gaveUp.Load() > before }) {
 			return nil, fmt.Errorf("the manager did not give up reconnecting within %v", occurrenceWait)
 		}
-		return map[string][NE]occSpec{"ClientSocket.ConnectError": unknown0(2)}, nil
+		return map[string][NE]occSpec{"ClientSocket.ConnectError": atLeast0(2)}, nil
 	}
 	in.close = func() { m.Close() }
 	return in, nil
@@ -914,15 +927,11 @@ func managerFamilies(m *sio.Manager) []*family {
 
 func witnessCount(f *family) int { return int(f.c.n[0][W].Load()) }
 
-func waitWitness(f *family, atLeast int) error {
-	if !vk.WaitUntil(occurrenceWait, func() bool { return witnessCount(f) >= atLeast }) {
-		return fmt.Errorf("witness handler of %s ran %d time(s), waited for %d", f.name, witnessCount(f), atLeast)
-	}
-	return nil
-}
-
 // Manager families against a server that does not exist: error, reconnect_attempt,
-// reconnect_error, reconnect_failed (2 attempts, then the manager gives up).
+// reconnect_error, reconnect_failed (2 attempts, then the manager gives up). The failed
+// dials are counted independently through a client socket of the manager (its
+// connect_error handlers are fed through the manager's internal sub-event list, not
+// through the registries under test).
 func newManagerDeadInstance() (*instance, error) {
 	l, err := net.Listen("tcp", "127.0.0.1:0")
 	if err != nil {
@@ -933,26 +942,35 @@ func newManagerDeadInstance() (*instance, error) {
 	cfg := fastManagerConfig()
 	cfg.ReconnectionAttempts = 2
 	m := sio.NewManager(url, cfg)
+	s := m.Socket("/", nil)
+	var dialErrors atomic.Int64
+	s.OnConnectError(func(any) { dialErrors.Add(1) })
 	in := &instance{typ: "manager-no-server", offAll: m.OffAll, offAllName: "Manager.OffAll", phases: onePhase}
 	in.fams = managerFamilies(m)
-	failed := in.fam("Manager.ReconnectFailed")
 	in.trigger = func(round, phase int, last bool) (map[string][NE]occSpec, error) {
-		before := witnessCount(failed)
-		m.Open()
-		if err := waitWitness(failed, before+1); err != nil {
-			return nil, err
+		before := dialErrors.Load()
+		if round == 0 {
+			s.Connect()
+		} else {
+			m.Open()
+		}
+		// 1 failed open + 2 failed reconnect attempts
+		if !vk.WaitUntil(occurrenceWait, func() bool { return dialErrors.Load() >= before+3 }) {
+			return nil, fmt.Errorf("saw %d failed dials, waited for 3", dialErrors.Load()-before)
 		}
 		return map[string][NE]occSpec{
 			"Manager.Open": unknown0(0), "Manager.Ping": unknown0(0), "Manager.Close": unknown0(0), "Manager.Reconnect": unknown0(0),
-			"Manager.Error": unknown0(2), "Manager.ReconnectAttempt": unknown0(2), "Manager.ReconnectError": unknown0(2), "Manager.ReconnectFailed": unknown0(1),
+			"Manager.Error": atLeast0(3), "Manager.ReconnectAttempt": atLeast0(2), "Manager.ReconnectError": atLeast0(2), "Manager.ReconnectFailed": atLeast0(1),
 		}, nil
 	}
 	in.close = func() { m.Close() }
 	return in, nil
 }
 
-// Manager families against a live server with a short ping interval that is killed and
-// restarted on the same address: open, ping, close, reconnect_attempt, reconnect (+ error, reconnect_error while it is down).
+// Manager families against a live server (ping interval 1 s, the minimum) that is killed
+// and restarted on the same address: open, ping, close, reconnect_attempt, reconnect
+// (+ error, reconnect_error while it is down). Opens and closes are established
+// independently through the connected state of a client socket of the manager.
 func newManagerLiveInstance() (*instance, error) {
 	mk := func(addr string) (*rig.Server, error) {
 		cfg := &sio.ServerConfig{}
@@ -966,43 +984,50 @@ func newManagerLiveInstance() (*instance, error) {
 	}
 	addr := srv.Addr
 	m := sio.NewManager(srv.URL, fastManagerConfig())
+	s := m.Socket("/", nil)
 	in := &instance{typ: "manager-live-server", offAll: m.OffAll, offAllName: "Manager.OffAll", phases: onePhase}
 	in.fams = managerFamilies(m)
-	fOpen, fPing, fClose, fRec := in.fam("Manager.Open"), in.fam("Manager.Ping"), in.fam("Manager.Close"), in.fam("Manager.Reconnect")
+	fPing := in.fam("Manager.Ping")
+	waitConn := func(want bool, what string) error {
+		if !vk.WaitUntil(occurrenceWait, func() bool { return s.Connected() == want }) {
+			return fmt.Errorf("%s: client socket connected=%v not reached within %v", what, want, occurrenceWait)
+		}
+		return nil
+	}
 	in.trigger = func(round, phase int, last bool) (map[string][NE]occSpec, error) {
-		o, p, c, r := witnessCount(fOpen), witnessCount(fPing), witnessCount(fClose), witnessCount(fRec)
-		m.Open()
-		if err := waitWitness(fOpen, o+1); err != nil {
+		p := witnessCount(fPing)
+		if round == 0 {
+			s.Connect()
+		} else {
+			m.Open()
+		}
+		if err := waitConn(true, "open"); err != nil {
 			return nil, err
 		}
 		pings := 1
 		if round == 0 {
 			pings = 2
 		}
-		if err := waitWitness(fPing, p+pings); err != nil {
-			return nil, err
-		}
+		// pings cannot be observed from outside the registry under test: wait on its witness, bounded
+		vk.WaitUntil(time.Duration(pings)*time.Second+5*time.Second, func() bool { return witnessCount(fPing) >= p+pings })
 		srv.Kill()
-		if err := waitWitness(fClose, c+1); err != nil {
+		if err := waitConn(false, "kill"); err != nil {
 			return nil, err
 		}
 		time.Sleep(40 * time.Millisecond) // a few failed reconnect attempts
 		if srv, err = mk(addr); err != nil {
 			return nil, fmt.Errorf("restart: %w", err)
 		}
-		if err := waitWitness(fRec, r+1); err != nil {
-			return nil, err
-		}
-		if err := waitWitness(fOpen, o+2); err != nil {
+		if err := waitConn(true, "reconnect"); err != nil {
 			return nil, err
 		}
 		m.Close()
-		if err := waitWitness(fClose, c+2); err != nil {
+		if err := waitConn(false, "close"); err != nil {
 			return nil, err
 		}
 		return map[string][NE]occSpec{
-			"Manager.Open": unknown0(2), "Manager.Ping": unknown0(pings), "Manager.Close": unknown0(2), "Manager.Reconnect": unknown0(1),
-			"Manager.Error": unknown0(0), "Manager.ReconnectAttempt": unknown0(1), "Manager.ReconnectError": unknown0(0), "Manager.ReconnectFailed": unknown0(0),
+			"Manager.Open": atLeast0(2), "Manager.Ping": unknown0(pings), "Manager.Close": atLeast0(2), "Manager.Reconnect": atLeast0(1),
+			"Manager.Error": unknown0(0), "Manager.ReconnectAttempt": atLeast0(1), "Manager.ReconnectError": unknown0(0), "Manager.ReconnectFailed": unknown0(0),
 		}, nil
 	}
 	in.close = func() {
